@@ -506,6 +506,30 @@ func (env *SpecEnv) call(x *SCall) Val {
 			return spec1(Select(env.eval(x.Args[0]).L[0], env.evalInt(x.Args[1])))
 		case "store":
 			return spec1(Store(env.eval(x.Args[0]).L[0], env.evalInt(x.Args[1]), env.eval(x.Args[2]).one()))
+		case "seqwrite":
+			// seqwrite(arr, pos, slice): arr with slice's elements written at pos..pos+len
+			a := env.eval(x.Args[0]).L[0]
+			pos := env.evalInt(x.Args[1])
+			sl := env.eval(x.Args[2])
+			if sl.T == nil || !isSlice(sl.T) {
+				sfail("seqwrite: third argument must be a slice")
+			}
+			et := under(sl.T).(*types.Slice).Elem()
+			h := ex.leafHeaps("A", typeName(et), "", et, "")[0]
+			row := Select(env.st.get(h), sl.L[0])
+			na := ex.vc.fresh("seqw", a.Sort)
+			k := Term{"sw", SInt}
+			ex.vc.assert(Forall([]string{"sw"}, Implies(And(Le(Int(0), k), Lt(k, sl.L[2])), Eq(Select(na, Add(pos, k)), Select(row, Add(sl.L[1], k)))), Select(na, Add(pos, k))))
+			ex.vc.assert(Forall([]string{"sw"}, Implies(Or(Lt(k, pos), Ge(k, Add(pos, sl.L[2]))), Eq(Select(na, k), Select(a, k))), Select(na, k)))
+			return spec1(na)
+		case "shift":
+			// shift(arr, d): arr'[j] == arr[j+d]
+			a := env.eval(x.Args[0]).L[0]
+			d := env.evalInt(x.Args[1])
+			na := ex.vc.fresh("shift", a.Sort)
+			k := Term{"sh", SInt}
+			ex.vc.assert(Forall([]string{"sh"}, Eq(Select(na, k), Select(a, Add(k, d))), Select(na, k)))
+			return spec1(na)
 		case "pow2":
 			if l, ok := x.Args[0].(*SLit); ok {
 				var k int
